@@ -80,3 +80,8 @@ package node
 //@ # ---- per-interface address quota: what assignEniWithOptions plans for one interface fits the per-adapter limit ----
 //@ guard store eniOptions.addIPv4N in assignEniWithOptions: (node.Spec.NodeCap.IPv4PerAdapter >= 0 ==> value >= 0) && (target.eniRef != nil ==> len(target.eniRef.IPv4) + value <= node.Spec.NodeCap.IPv4PerAdapter) && (target.eniRef == nil ==> value <= node.Spec.NodeCap.IPv4PerAdapter)
 //@ guard store eniOptions.addIPv6N in assignEniWithOptions: (node.Spec.NodeCap.IPv6PerAdapter >= 0 ==> value >= 0) && (target.eniRef != nil ==> len(target.eniRef.IPv6) + value <= node.Spec.NodeCap.IPv6PerAdapter) && (target.eniRef == nil ==> value <= node.Spec.NodeCap.IPv6PerAdapter)
+
+//@ for C02 C03
+//@ # an owner is taken away again only from a binding made in this very pass (the pod reports no IPv4 address: the half of a
+//@ # dual-stack pair whose IPv6 half could not be found); an address a running pod reports is never unbound here
+//@ guard store IP.PodID in assignIPFromLocalPool: value != "" || info.IPv4 == ""
